@@ -24,13 +24,13 @@ DIMS = {
     "below": AW,
     "vis": ["pub", "", "pub(crate)", "pub(super)"],
     "unsafe": [False, True],
-    "generics": ["", "<X>", "<X: Clone>", "<X = u32>", "<'a>", "<const N: usize>"],
+    "generics": ["", "<X>", "<X: Clone>", "<X = u32>", "<'a>", "<const N: usize>", "<const N: usize = 3>", "<X: Clone + Default = u32>"],
     "supers": ["", ": Sized", ": Send + Sync", ": 'static", ": ::core::fmt::Debug"],
-    "where": ["", "where Self: Sized", "where u8: Copy, Self: Send"],
+    "where": ["", "where Self: Sized", "where u8: Copy, Self: Send", "where Self: Send, Self: Sync, u8: Copy, u8: Clone"],
     "mattrs": [()] + [(a,) for a in MATTRS],
     "body": [False, True],
     "assoc": ["", "type A;", "type A: Clone + Default;", "type A; fn g(&self) -> Self::A;"],
-    "async": [False, True],
+    "async": [False, True, "at"],      # "at": async fn + `#[async_trait]` below entrait (and on the user's impl)
     "second": ["", "fn n(&self);", "fn m2(&self, a: i64) -> i64;", "fn r<'x>(&'x self, s: &'x str) -> &'x str;", "fn gen<Y: Clone>(&self, y: Y) -> Y;"],
     "opts": ["", "mock_api = TMock", "mockall", "unimock", "delegate_by = ref", "delegate_by = Borrow", "?Send",
              "TImpl, delegate_by = DelegateT", "TImpl, delegate_by = ref", "pub(crate) TImpl, delegate_by = DelegateT"],
@@ -63,7 +63,7 @@ def val(s, d):
 def dyn_compatible(s):
     # shapes outside the supported class for dyn delegation (pruned by rule for ref / Borrow / dyn target)
     return not (val(s, "assoc") or "gen<" in val(s, "second") or val(s, "supers") == ": Sized" or "Self: Sized" in val(s, "where")
-                or val(s, "async"))   # (async fn in a dyn-delegated trait needs async_trait: C12's business)
+                or (val(s, "async") and not (val(s, "async") == "at")))   # (native async fn is not dyn-compatible)
 
 
 def trait_src(s):
@@ -71,6 +71,8 @@ def trait_src(s):
     L += [ATTRS[a] for a in val(s, "above")]
     L.append("#[::entrait::entrait(%s)]" % val(s, "opts"))
     L += [ATTRS[a] for a in val(s, "below")]
+    if (val(s, "async") == "at"):
+        L.append("#[::async_trait::async_trait]")
     head = "%s %strait T%s%s %s {" % (val(s, "vis"), "unsafe " if val(s, "unsafe") else "", val(s, "generics"), val(s, "supers"), val(s, "where"))
     L.append(head)
     if val(s, "assoc"):
@@ -85,7 +87,8 @@ def trait_src(s):
 
 
 def generic_args(s):
-    return {"": "", "<X>": "<u32>", "<X: Clone>": "<u32>", "<X = u32>": "<u32>", "<'a>": "<'static>", "<const N: usize>": "<3>"}[val(s, "generics")]
+    return {"": "", "<X>": "<u32>", "<X: Clone>": "<u32>", "<X = u32>": "", "<'a>": "<'static>", "<const N: usize>": "<3>",
+            "<const N: usize = 3>": "", "<X: Clone + Default = u32>": ""}[val(s, "generics")]
 
 
 def render(s):
@@ -112,6 +115,8 @@ def render(s):
         items.append("fn r<'x>(&'x self, s: &'x str) -> &'x str { s }")
     elif sec.startswith("fn gen"):
         items.append("fn gen<Y: Clone>(&self, y: Y) -> Y { y }")
+    if (val(s, "async") == "at"):
+        L.append("    #[::async_trait::async_trait]")
     L.append("    #[allow(deprecated)] %simpl T%s for App { %s }" % (us, ga, " ".join(items)))
     call = "T%s::m(&App, 1)" % ("::" + ga if ga else "")
     call = "<App as T%s>::m(&App, 1)" % ga
@@ -206,9 +211,9 @@ def diff_trait(ti, to, s):
         dx, dy = x.get("default"), y.get("default")
         if (dx is None) != (dy is None):
             P.append(("default-body-lost" if dx else "default-body-added", name))
-        elif dx is not None and not sx["asyncness"] and nospace(dx) != nospace(dy):
+        elif dx is not None and (not sx["asyncness"] or async_trait) and nospace(dx) != nospace(dy):
             P.append(("default-body-changed", "%s -> %s" % (dx, dy)))
-        elif dx is not None and sx["asyncness"] and nospace(dx).strip("{}") not in nospace(dy):
+        elif dx is not None and sx["asyncness"] and not async_trait and nospace(dx).strip("{}") not in nospace(dy):
             P.append(("default-body-changed", "%s -> %s" % (dx, dy)))
     return P
 
